@@ -1625,8 +1625,12 @@ func (d *decoder[T]) decodeBytesInto(out []byte, mustFit bool) (v []byte, state 
 func (d *decoder[T]) rawBytes() (v []byte) {
 	// ensure that this is not a view into the bytes
 	// i.e. if necessary, make new copy always.
+	//
+	// nextValueBytes returns a view: of the input []byte (bytes reader), or of the
+	// ioDecReader's internal buffer, which the next read or recording overwrites.
+	// Only a view of the input may be kept, and only if ZeroCopy was requested.
 	v = d.d.nextValueBytes()
-	if d.bytes && !d.h.ZeroCopy {
+	if !(d.bytes && d.h.ZeroCopy) {
 		vv := make([]byte, len(v))
 		copy(vv, v) // using copy here triggers make+copy optimization eliding memclr
 		v = vv
